@@ -582,7 +582,7 @@ pub fn cmd_explore(opt: &HashMap<String, String>) -> i32 {
             })
             .collect();
         let r = if owned.is_empty() {
-            crate::instvar::explore(depth, ladder, if thorough { 6 } else { 5 }, threads, &iskips)
+            crate::instvar::explore(depth, ladder, if thorough { 6 } else { 5 }, if thorough { &[5000, 20000, 70000, 300000][..] } else { &[5000, 20000, 70000][..] }, threads, &iskips)
         } else {
             crate::instvar::InstResult { violations: owned, ..Default::default() }
         };
@@ -987,7 +987,7 @@ pub fn cmd_replay(opt: &HashMap<String, String>) -> i32 {
             }
         }
         ("instvar", _) => {
-            let r = crate::instvar::explore(3, 40, 5, 16, &[]);
+            let r = crate::instvar::explore(3, 40, 5, &[5000, 20000, 70000], 16, &[]);
             for x in r.violations {
                 if x.props & sel != 0 {
                     viols.push((x.rule.to_string(), x.detail));
